@@ -50,8 +50,14 @@ RULE = ('deterministic core: every criterion of the grammar (numbers, numeric te
         'differing by 1; exact rationals to the model): every near value as number / text / op+text criterion x every '
         'near cell, partition and ...IFS over the near column, and in the random stream.  Sequences: criteria that '
         'are ==-equal in Python but differently typed (1/TRUE/"1", 0/FALSE/"") in consecutive calls, both orders: '
-        '`seq` scenarios in FRESH interpreter processes (main call alone vs right after the prelude call) and the '
-        'same pairs adjacent in the checking process (`prelude`).  Also '
+        'also float twins (1.0, 0.0, 10/10 computed by cell arithmetic), every ordered pair: `seq` scenarios (library '
+        'calls; ONE compiled formula whose criterion cell changes type TRUE -> 1.0 -> TRUE; a real workbook with '
+        'set_value on the criterion cell) each in a FRESH interpreter process and again inside the checking process, '
+        'oracle: every call gives what it gives as the first call of a fresh process; plus adjacent `prelude` pairs.  '
+        'Exotic numeric spellings as TEXT cells (1_0, full-width / Arabic-Indic / Devanagari digits, NBSP / thin-space '
+        'padding, inf, nan, 0x10, and the Excel-numeric " 10 ", +10, 1e1, 10.0) against 10 / "10" / "=10" / '
+        '"<>10" / ">9" …: only spellings of the Excel grammar fall under the known finding.  Single-cell ranges '
+        '(scalars) with every falsy value as the aggregated cell.  Also '
         'a malformed stream: unequal range sizes, blank / logical / error-value '
         'criteria, bare "<" ">" "<=" ">=", scalar range arguments.  A case is non-trivial when a criteria range has '
         '>= 2 cells of >= 2 kinds or it is a one-cell case of the deterministic core; distinct = distinct case dict.')
@@ -76,11 +82,15 @@ XL = {f: f.upper() for f in FNS}
 IFS_OF = {'countif': 'countifs', 'sumif': 'sumifs', 'averageif': 'averageifs'}
 REQUIRED_BUCKETS = ['core:' + k for k in ('number', 'opnumber', 'text', 'optext', 'wild', 'empty')] + \
                    ['call:' + f for f in FNS] + ['partition', 'commute', 'ifs1', 'avg', 'malformed:size',
-                                                 'malformed:criteria', 'near', 'seq', 'prelude']
+                                                 'malformed:criteria', 'near', 'seq', 'prelude', 'exotic', 'single']
 
 S = core.enc_text
 OPS = ('', '=', '<>', '<', '<=', '>', '>=')
 OPER_RE = re.compile(r'(=|<>|<=?|>=?)?(.*)', re.S)
+# numeric text as Excel (and the model, Ops.parseNum?) reads it: ASCII digits, ASCII white space, optional exponent.
+# Python's float()/int() read more ('1_0', full-width and Arabic-Indic digits, NBSP-padded digits, 'inf', 'nan'): those
+# are plain TEXT, also for the known finding numeric-text-equals-number, whose matcher must not swallow them.
+EXCEL_NUM_TEXT = re.compile(r'[ \t\n\v\f\r]*[+-]?([0-9]+\.?[0-9]*|\.[0-9]+)([eE][+-]?[0-9]+)?[ \t\n\v\f\r]*')
 PLAIN_NUM = re.compile(r'[+-]?([0-9]+(\.[0-9]*)?|\.[0-9]+)')
 
 NUM_CELLS = [0, 1, 3, -2, 2.5, 10]
@@ -105,6 +115,15 @@ def _tok(v):
 
 
 POOL = [_tok(v) for v in NUM_CELLS] + [S(t) for t in TEXT_CELLS] + [_tok(v) for v in OTHER_CELLS]
+
+
+# text that Python's float()/int() accept (or nearly) around the number 10 / 1: Excel-numeric spellings (' 10 ', '+10',
+# '1e1', '10.0', '1E1', '010') and spellings that are plain text in Excel ('1_0', full-width, Arabic-Indic, NBSP / thin
+# space padded, 'inf', 'nan', '0x10', '10 000', '1,0')
+EXOTIC_CELLS = ['10', ' 10 ', '+10', '1e1', '1E1', '10.0', '010', '\t10\n', '1_0', '\uff11\uff10', '\u0661\u0660',
+                '\u00a010', '10\u00a0', '\u200910\u2009', '\u300010', 'inf', '-inf', 'nan', 'Infinity', '0x10', '0b10',
+                '10 000', '1,0', '1__0', '_10', '10_', '\u0967\u0966', '1e', 'e1', '1_0.0', '1e1_0']
+EXOTIC_CRIT_VALUES = [10, 1e10, 0]
 
 
 def _criteria():
@@ -134,11 +153,24 @@ UNGOVERNED_CRIT = [S('<'), S('>'), S('<='), S('>='), 'b:1', 'b:0', 'z', 'e:na', 
 
 
 def _py(tok):
+    """protocol token -> Python value.  Harness-only tokens: `f:p/q` a Python FLOAT also when integral (1.0, 0.0) and
+    `q:a/b` the float a/b computed by cell arithmetic (in a formula: two cells and `X1/Y1`); both are the number p/q
+    (a/b) for the model."""
     from fractions import Fraction
+    if tok[:2] in ('f:', 'q:'):
+        a, _, b = tok[2:].partition('/')
+        return int(a) / int(b or 1)
     v = core.dec(tok)
     if isinstance(v, Fraction):
         return int(v) if v.denominator == 1 else float(v)
     return v
+
+
+def _mtok(tok):
+    """the token the model sees"""
+    if tok[:2] in ('f:', 'q:'):
+        return core.enc(_py(tok))
+    return tok
 
 
 def _pyarg(a):
@@ -182,24 +214,37 @@ def queries(c):
     return [norm_query(c['via'], fn, args) for fn, args in raw_queries(c)]
 
 
-# ---- sequences: criteria that are ==-equal in Python but differently typed (1 / TRUE / "1", 0 / FALSE / ""), one call
-# right after the other.  `seq` scenarios run in FRESH interpreter processes (so that nothing evaluated earlier in this
-# run can hide or cause a dependence on the previous call): the main call alone, and the prelude call followed by the
-# main call.  A case only carries the scenario index; the oracle text spells the concrete pair of calls.
+# ---- sequences: criteria that are ==-equal in Python but differently typed — TRUE / 1.0 / 1 / "1" / a float computed by
+# cell arithmetic (10/10), FALSE / 0.0 / 0 / "" / 0/10 — in consecutive evaluations, every ordered pair.  A scenario is a
+# list of calls evaluated one after the other:
+#     via l   library calls;
+#     via f   ONE compiled formula ("=COUNTIF(A1:A7,I1)") whose criterion is READ FROM A CELL that changes type between
+#             evaluations (TRUE, then 1.0, then TRUE again), or is computed (I1/J1);
+#     via wb  a real in-memory workbook (ExcelCompiler): the criterion cell is changed with set_value, the formula cell
+#             re-evaluated.
+# Every scenario runs in a FRESH interpreter process (`seq`, nothing evaluated earlier can hide or cause a dependence on
+# previous calls) and again inside the checking process (`seq` with p=1).  Oracle (implementation only): each call gives
+# what the same call gives as the FIRST call of a fresh process.  A case only carries the scenario index; the oracle
+# text spells the concrete calls.
 SEQ_RANGE = [7, 1, 'n:1/1', 'b:1', 'n:0/1', 'b:0', 's:49', 's:', 'z']
 SEQ_VALS = [7, 1] + [f'n:{2 ** k}/1' for k in range(7)]
 SEQ_PAIRS = [('b:1', 'n:1/1'), ('n:1/1', 'b:1'), ('b:0', 'n:0/1'), ('n:0/1', 'b:0'), ('n:1/1', 's:49'),
-             ('s:49', 'n:1/1'), ('n:0/1', 's:'), ('s:', 'n:0/1')]
+             ('s:49', 'n:1/1'), ('n:0/1', 's:'), ('s:', 'n:0/1'),
+             ('b:1', 'f:1/1'), ('f:1/1', 'b:1'), ('f:1/1', 'n:1/1'), ('n:1/1', 'f:1/1'),
+             ('b:0', 'f:0/1'), ('f:0/1', 'b:0')]
 
 
 def _seq_scenarios():
-    out = []
-    for a, b in SEQ_PAIRS:
-        out.append(('l', ('countif', [SEQ_RANGE, a]), ('countif', [SEQ_RANGE, b])))
-    for a, b in SEQ_PAIRS[:2]:
-        out.append(('f', ('countif', [SEQ_RANGE, a]), ('countif', [SEQ_RANGE, b])))
-    for a, b in SEQ_PAIRS[2:4]:
-        out.append(('l', ('countifs', [SEQ_RANGE, a]), ('sumifs', [SEQ_VALS, SEQ_RANGE, b])))
+    cnt = lambda t: ('countif', [SEQ_RANGE, t])    # noqa
+    out = [('l', [cnt(a), cnt(b)]) for a, b in SEQ_PAIRS]
+    out.append(('l', [('countifs', [SEQ_RANGE, 'b:0']), ('sumifs', [SEQ_VALS, SEQ_RANGE, 'f:0/1'])]))
+    out.append(('l', [('sumifs', [SEQ_VALS, SEQ_RANGE, 'f:1/1']), ('maxifs', [SEQ_VALS, SEQ_RANGE, 'b:1'])]))
+    for a, b in (('b:1', 'f:1/1'), ('b:1', 'q:10/10'), ('b:0', 'f:0/1'), ('b:0', 'q:0/10')):
+        out.append(('f', [cnt(a), cnt(b), cnt(a)]))
+        out.append(('f', [cnt(b), cnt(a), cnt(b)]))
+    for a, b in (('b:1', 'f:1/1'), ('b:0', 'f:0/1')):
+        out.append(('wb', [cnt(a), cnt(b), cnt(a)]))
+        out.append(('wb', [cnt(b), cnt(a), cnt(b)]))
     return out
 
 
@@ -207,42 +252,83 @@ SEQ = _seq_scenarios()
 _SEQ_OUT = {}
 _SEQ_SCRIPT = ('import sys, json; sys.path.insert(0, %r); from harness.props import c15\n'
                'job = json.loads(sys.stdin.readline())\n'
-               'print(json.dumps([c15.run_query(job["via"], fn, args, False) for fn, args in job["qs"]]))\n'
+               'print(json.dumps(c15.run_steps(job["via"], job["qs"])))\n'
                % os.path.dirname(os.path.dirname(os.path.dirname(os.path.abspath(__file__)))))
 
 
+def run_steps(via, qs):
+    """evaluate the calls of one scenario one after the other in this process"""
+    if via != 'wb':
+        return [run_query(via, fn, args, False) for fn, args in qs]
+    # one workbook: range in A1:A7, criterion in C1, =COUNTIF(A1:A7,C1) in E1; set_value(C1, …) between evaluations
+    try:
+        cells = {f'Sheet1!A{k + 1}': _py(t) for k, t in enumerate(SEQ_RANGE[2:])}
+        cells['Sheet1!C1'] = _py(qs[0][1][1])
+        cells['Sheet1!E1'] = '=COUNTIF(A1:A7,C1)'
+        comp = pyc.compiler_from(cells)
+    except Exception as exc:   # noqa
+        return [core.canon_exc(exc)] * len(qs)
+    outs = []
+    for k, (fn, args) in enumerate(qs):
+        try:
+            if k:
+                comp.set_value('Sheet1!C1', _py(args[1]))
+            outs.append(core.enc(comp.evaluate('Sheet1!E1')))
+        except Exception as exc:   # noqa
+            outs.append(core.canon_exc(exc))
+    return outs
+
+
 def _seq_run_all():
-    """every scenario twice, each in its own fresh interpreter, all started at once"""
+    """every scenario in its own fresh interpreter, all started at once"""
     procs = []
-    for i, (via, pre, main) in enumerate(SEQ):
-        for tag, qs in (('alone', [main]), ('after', [pre, main])):
-            p = subprocess.Popen([sys.executable, '-c', _SEQ_SCRIPT], stdin=subprocess.PIPE, stdout=subprocess.PIPE,
-                                 stderr=subprocess.DEVNULL, text=True)
-            p.stdin.write(json.dumps({'via': via, 'qs': qs}) + '\n')
-            p.stdin.close()
-            procs.append((i, tag, p))
-    res = {}
-    for i, tag, p in procs:
+    for i, (via, qs) in enumerate(SEQ):
+        p = subprocess.Popen([sys.executable, '-c', _SEQ_SCRIPT], stdin=subprocess.PIPE, stdout=subprocess.PIPE,
+                             stderr=subprocess.DEVNULL, text=True)
+        p.stdin.write(json.dumps({'via': via, 'qs': qs}) + '\n')
+        p.stdin.close()
+        procs.append((i, p))
+    for i, p in procs:
         line = p.stdout.readline()
         p.wait()
         try:
-            res[(i, tag)] = json.loads(line)
+            _SEQ_OUT[i] = json.loads(line)
         except Exception:   # noqa
-            res[(i, tag)] = ['!seq-subprocess-failed'] * (1 if tag == 'alone' else 2)
-    for i in range(len(SEQ)):
-        _SEQ_OUT[i] = '|'.join(res[(i, 'alone')] + res[(i, 'after')])
+            _SEQ_OUT[i] = ['!seq-subprocess-failed'] * len(SEQ[i][1])
 
 
-def _seq_impl(i):
+def seq_fresh(i):
     if i not in _SEQ_OUT:
         _seq_run_all()
     return _SEQ_OUT[i]
 
 
+def seq_first(via, q):
+    """what the call gives as the first call of a fresh process (from the scenarios that start with it)"""
+    key = json.dumps(q)
+    for i, (v, qs) in enumerate(SEQ):
+        if v == via and json.dumps(qs[0]) == key:
+            return seq_fresh(i)[0]
+    return None
+
+
+def _seq_impl(c):
+    via, qs = SEQ[c['i']]
+    return '|'.join(run_steps(via, qs) if c.get('p') else seq_fresh(c['i']))
+
+
+def _show_tok(t):
+    if t[:2] == 'f:':
+        return repr(_py(t))
+    if t[:2] == 'q:':
+        return f'({t[2:]} by cell arithmetic = {_py(t)!r})'
+    return core.show(t)
+
+
 def _show_arg(a):
     if isinstance(a, list):
-        return '{' + ';'.join(core.show(t) for t in a[2:]) + '}'
-    return core.show(a)
+        return '{' + ';'.join(_show_tok(t) for t in a[2:]) + '}'
+    return _show_tok(a)
 
 
 def show_call(fn, args):
@@ -252,8 +338,7 @@ def show_call(fn, args):
 def raw_queries(c):
     k = c['k']
     if k == 'seq':
-        _, pre, main = SEQ[c['i']]
-        return [main, pre, main]
+        return SEQ[c['i']][1]
     if k == 'call':
         return [(c['fn'], c['args'])]
     if k == 'partition':
@@ -314,6 +399,10 @@ def build_formula(fn, args, lit):
             for k, t in enumerate(a[2:]):
                 cells[f'{_colname(col0 + k % c)}{k // c + 1}'] = _py(t)
             parts.append(f'{_colname(col0)}1:{_colname(col0 + c - 1)}{r}')
+        elif a.startswith('q:'):
+            x, _, y = a[2:].partition('/')
+            cells[f'{_colname(col0)}1'], cells[f'{_colname(col0 + 1)}1'] = int(x), int(y)
+            parts.append(f'{_colname(col0)}1/{_colname(col0 + 1)}1')
         else:
             v = _py(a)
             text = _literal(v) if (lit and i in crit_idx) else None
@@ -376,7 +465,7 @@ def run_query(via, fn, args, lit):
 
 def impl(c):
     if c['k'] == 'seq':
-        return _seq_impl(c['i'])
+        return _seq_impl(c)
     if 'prelude' in c:      # a previous call in the same process; only the main call is compared
         fn, args = c['prelude']
         run_query(c['via'], fn, args, False)
@@ -385,8 +474,8 @@ def impl(c):
 
 def _argtoks(a):
     if isinstance(a, list):
-        return f'a:{a[0]}:{a[1]} ' + ' '.join(a[2:])
-    return a
+        return f'a:{a[0]}:{a[1]} ' + ' '.join(_mtok(t) for t in a[2:])
+    return _mtok(a)
 
 
 def query_line(via, fn, args):
@@ -394,7 +483,8 @@ def query_line(via, fn, args):
 
 
 def model_lines(c):
-    return [query_line(c['via'], fn, args) for fn, args in queries(c)]
+    via = 'l' if c['via'] == 'wb' else c['via']
+    return [query_line(via, fn, args) for fn, args in queries(c)]
 
 
 def same(a, b):
@@ -411,20 +501,20 @@ def same(a, b):
 
 def split_crit(tok):
     """('num', op, value) | ('text', op, value) | None when the criterion is outside the governed grammar"""
-    if tok.startswith('n:'):
+    if tok[:2] in ('n:', 'f:', 'q:'):
         return 'num', '', _py(tok)
     if not tok.startswith('s:'):
         return None
     s = core.dec(tok)
     if '\n' in s or '\r' in s:
         return None
-    if PLAIN_NUM.fullmatch(s):
+    if _is_num_text(s):
         return 'num', '', _num_of_text(s)
     if _floats(s):
         return None
     m = OPER_RE.fullmatch(s)
     op, value = m.group(1) or '', m.group(2)
-    if PLAIN_NUM.fullmatch(value):
+    if _is_num_text(value):
         return 'num', op, _num_of_text(value)
     if _floats(value):
         return None
@@ -434,9 +524,18 @@ def split_crit(tok):
 
 
 def _num_of_text(s):
-    """coerce_to_number on plain numeric text: int() without a '.', else float() — exact, never through a float for
-    integers (10**17+1 must stay distinct from 10**17)"""
-    return int(s) if '.' not in s else float(s)
+    """coerce_to_number on numeric text: int() when there is no '.', and it reads, else float() — exact, never through
+    a float for integers (10**17+1 must stay distinct from 10**17)"""
+    if '.' not in s:
+        try:
+            return int(s)
+        except ValueError:
+            pass
+    return float(s)
+
+
+def _is_num_text(s):
+    return EXCEL_NUM_TEXT.fullmatch(s) is not None and abs(float(s)) != float('inf')
 
 
 def _floats(s):
@@ -573,12 +672,21 @@ def _oracles(results):
             continue
         outs = r.impl.split('|')
         qs = queries(c)
-        if c['k'] == 'seq' and len(outs) == 3 and outs[0] != outs[2]:
+        if c['k'] == 'seq':
             # a call's answer does not depend on what was evaluated before it
-            _, pre, main = SEQ[c['i']]
-            yield c, (f'in a fresh process, right after {show_call(*pre)} the call {show_call(*main)} gives '
-                      f'{core.show(outs[2])}; evaluated alone it gives {core.show(outs[0])} (via {SEQ[c["i"]][0]})')
-            continue
+            via, steps = SEQ[c['i']]
+            bad = None
+            for k, (q, o) in enumerate(zip(steps, outs)):
+                first = seq_first(via, q)
+                if first is not None and o != first:
+                    bad = k
+                    break
+            if bad is not None:
+                where = 'inside the checking process' if c.get('p') else 'in a fresh process'
+                before = '; '.join(show_call(*q) for q in steps[:bad]) or '(earlier cases of this run)'
+                yield c, (f'{where} (via {via}), after {before} the call {show_call(*steps[bad])} gives '
+                          f'{core.show(outs[bad])}; as the first call of a fresh process it gives {core.show(first)}')
+                continue
         if not governed(c):
             continue
         # never fails: a number or an Excel error value (MAXIFS/MINIFS may hand back a logical of the range)
@@ -632,7 +740,7 @@ def _numtext_rewrite(fn, args):
         for k in range(2, len(a)):
             if a[k].startswith('s:'):
                 t = core.dec(a[k])
-                if _floats(t) and float(t) == cr[2]:
+                if _is_num_text(t) and _num_of_text(t) == cr[2]:
                     a[k] = core.enc(cr[2] if cr[2] != int(cr[2]) else int(cr[2]))
                     changed = True
         new[ri] = a if isinstance(new[ri], list) else a[2]
@@ -707,7 +815,7 @@ def _kinds(a):
 
 
 def nontrivial(c):
-    if c.get('core') or c.get('near') or c['k'] == 'seq' or 'prelude' in c:
+    if c.get('core') or c.get('near') or c.get('exotic') or c.get('single') or c['k'] == 'seq' or 'prelude' in c:
         return True
     for fn, args in queries(c)[:1]:
         _, slots = pair_slots(fn, len(args))
@@ -725,6 +833,10 @@ def bucket(c):
         return 'prelude'
     if c.get('near'):
         return 'near'
+    if c.get('exotic'):
+        return 'exotic'
+    if c.get('single'):
+        return 'single'
     if c.get('core'):
         return 'core:' + c['core']
     if c.get('mal'):
@@ -740,6 +852,9 @@ def bucket(c):
 def _fill(rng_, n, style):
     nums = [_tok(v) for v in NUM_CELLS + [0.5, -1.25, 7, 4]]
     texts = [S(t) for t in TEXT_CELLS]
+    if style == 'exotic':
+        ex = [S(t) for t in EXOTIC_CELLS] + ['n:10/1', 'n:1/1', 'b:1', 'z']
+        return [rng_.choice(ex) for _ in range(n)]
     if style == 'near':
         near = [_tok(v) for v in NEAR]
         return [rng_.choice(near) for _ in range(n)]
@@ -757,8 +872,10 @@ def _rand_crit(rng_):
     u = rng_.random()
     if u < 0.7:
         return rng_.choice(CRIT_TOKS)
-    if u < 0.8:
+    if u < 0.78:
         return S(rng_.choice(OPS) + repr(rng_.choice(NEAR)))
+    if u < 0.8:
+        return S(rng_.choice(OPS) + rng_.choice(('10', '1e1', '10.0', '1')))
     # compose: op + (number | pool text | wildcard built from a pool text)
     op = rng_.choice(OPS)
     v = rng_.random()
@@ -784,7 +901,7 @@ def _rand_call(rng_, fn=None, mal=None):
     r, c = rng_.randint(1, 5), rng_.randint(1, 3)
     n = r * c
     npairs = 1 if fn in ('countif', 'sumif', 'averageif') else rng_.randint(1, 3)
-    style = rng_.choice(('mixed', 'mixed', 'numbers', 'text', 'noerr', 'near'))
+    style = rng_.choice(('mixed', 'mixed', 'numbers', 'text', 'noerr', 'near', 'exotic'))
     pairs = []
     for _ in range(npairs):
         pairs += [rng(r, c, _fill(rng_, n, style)), _rand_crit(rng_)]
@@ -835,12 +952,47 @@ def cases(tier, rng_):
     #      both orders, over a range holding numbers, logicals, numeric text, empty text and a blank
     for i in range(len(SEQ)):
         yield {'k': 'seq', 'i': i, 'via': SEQ[i][0]}
+        yield {'k': 'seq', 'i': i, 'via': SEQ[i][0], 'p': 1}
     for a, b in SEQ_PAIRS:
         for via in ({'via': 'l'}, {'via': 'f', 'lit': False}):
             for fn in ('countif', 'countifs'):
                 yield {'k': 'call', 'fn': fn, 'args': [SEQ_RANGE, b], 'prelude': [fn, [SEQ_RANGE, a]], **via}
             yield {'k': 'call', 'fn': 'sumifs', 'args': [SEQ_VALS, SEQ_RANGE, b],
                    'prelude': ['maxifs', [SEQ_VALS, SEQ_RANGE, a]], **via}
+    # ---- single-cell ranges: a one-cell range reaches the functions as a SCALAR; every falsy / odd value as the
+    #      aggregated cell (0, 0.0, FALSE, "", blank, an error value, text) with criteria it is and is not selected by
+    for a in ('n:3/1', 'n:0/1', S('a'), 'b:1', 'z'):
+        for crit in (S('>0'), S('<>x'), S('a'), S('=3'), S(''), 'n:0/1'):
+            for sc in ('n:0/1', 'f:0/1', 'b:0', 'b:1', S(''), 'z', 'n:5/1', 'e:na', S('txt')):
+                for via in ({'via': 'l'}, {'via': 'f', 'lit': False}):
+                    yield {'k': 'call', 'fn': 'sumif', 'args': [a, crit, sc], 'single': 1, **via}
+                    yield {'k': 'ifs1', 'fn': 'averageif', 'args': [a, crit, sc], 'single': 1, **via}
+                    yield {'k': 'ifs1', 'fn': 'sumif', 'args': [rng(1, 1, [a]), crit, rng(1, 1, [sc])], 'single': 1,
+                           **via}
+                yield {'k': 'call', 'fn': 'maxifs', 'args': [sc, a, crit], 'via': 'l', 'single': 1}
+                yield {'k': 'call', 'fn': 'minifs', 'args': [sc, a, crit], 'via': 'f', 'lit': False, 'single': 1}
+    # ---- text cells that Python reads as a number but Excel does not (and Excel-numeric spellings), in criteria
+    #      ranges against numeric criteria: one-cell COUNTIF, the partition pair, all consumers over the column
+    ex_toks = [S(t) for t in EXOTIC_CELLS] + ['n:10/1', 'f:10/1', 'n:1/1', 'b:1']
+    ne = len(ex_toks)
+    excol = rng(ne, 1, ex_toks)
+    exvals = rng(ne, 1, [f'n:{2 ** k}/1' for k in range(ne)])
+    ex_crits = ['n:10/1', 'f:10/1', S('10'), S('=10'), S('<>10'), S('>9'), S('<11'), S('>=10'), S('<=10'), S('10.0'),
+                S('=1e1'), S(' 10 '), 'n:10000000000/1', S('=1e10'), S('<>1e10'), 'n:0/1', S('=0'), S('<>0')]
+    for crit in ex_crits:
+        for cell in ex_toks:
+            yield {'k': 'call', 'fn': 'countif', 'args': [rng(1, 1, [cell]), crit], 'via': 'l', 'exotic': 1}
+            yield {'k': 'call', 'fn': 'countif', 'args': [cell, crit], 'via': 'f', 'lit': False, 'exotic': 1}
+        yield {'k': 'call', 'fn': 'countifs', 'args': [excol, crit], 'via': 'l', 'exotic': 1}
+        yield {'k': 'call', 'fn': 'countif', 'args': [excol, crit], 'via': 'f', 'lit': False, 'exotic': 1}
+        yield {'k': 'call', 'fn': 'sumif', 'args': [excol, crit, exvals], 'via': 'l', 'exotic': 1}
+        yield {'k': 'call', 'fn': 'sumifs', 'args': [exvals, excol, crit], 'via': 'f', 'lit': False, 'exotic': 1}
+        yield {'k': 'call', 'fn': 'averageifs', 'args': [exvals, excol, crit], 'via': 'l', 'exotic': 1}
+        yield {'k': 'call', 'fn': 'maxifs', 'args': [exvals, excol, crit], 'via': 'l', 'exotic': 1}
+        yield {'k': 'call', 'fn': 'minifs', 'args': [exvals, excol, crit], 'via': 'l', 'exotic': 1}
+    for x in ('10', '1e1', '1e10', '0', '10.0'):
+        yield {'k': 'partition', 'args': [excol, S(x)], 'via': 'l', 'exotic': 1}
+        yield {'k': 'partition', 'args': [excol, S(x)], 'via': 'f', 'lit': False, 'exotic': 1}
     # ---- near-equal numbers: every near value as criterion (number, text, op + text) x every near cell, the
     #      partition pair and the ...IFS consumers over the whole near column
     near_toks = [_tok(v) for v in NEAR]
